@@ -41,9 +41,18 @@ def cases(tier, rng):
     n_cases = 14 if tier == "quick" else 56
     per = 3 if tier == "quick" else 27
     out = []
+    # material classes are enumerated, not drawn: every (permittivity tier, conductivity tier, loss strength) combination
+    # -- in particular one-component conductivity on three-component permittivity and vice versa, weak and strong --
+    # occurs in every tier
+    classes = [(e, "no", "weak") for e in ("iso", "diag")] + [
+        (e, l, st) for e in ("iso", "diag") for l in ("iso", "diag") for st in ("weak", "strong")
+    ]
+    n_scene = 0
     for i in range(n_cases):
         scenes_ = []
         for j in range(per):
+            eps_tier, lossy_tier, strength = classes[n_scene % len(classes)]
+            n_scene += 1
             shape = [int(rng.integers(1, 8)) for _ in range(3)]
             if (i + j) % 5 == 0:
                 shape[int(rng.integers(3))] = 1
@@ -56,9 +65,10 @@ def cases(tier, rng):
                 {
                     "shape": shape,
                     "axes": axes,
-                    "eps_tier": ["iso", "diag"][int(rng.integers(2))],
+                    "eps_tier": eps_tier,
                     "mu_tier": ["scalar", "iso", "diag"][int(rng.integers(3))],
-                    "lossy": ["no", "no", "iso", "diag"][int(rng.integers(4))],
+                    "lossy": lossy_tier,
+                    "loss_number": strength,
                     "grid": ["uniform", "rect"][int(rng.integers(2))],
                     "complex": bool(rng.integers(2)),
                     "steps": int(rng.integers(20, 120 if tier == "quick" else 300)),
@@ -155,7 +165,13 @@ def _one(sc, r):
     c = config.courant_number
     if lossy:
         se = arrays.electric_conductivity
-        a_num = rng.uniform(0.0, 0.5, size=se.shape) * (rng.random(se.shape) < 0.7)
+        # half-step loss number a = c*sigma*eta0/(2 eps): weak loss, or (every other lossy scene) anything up to the
+        # good-conductor regime a >> 1 -- "non-negative conductivity" in the property has no upper bound
+        if sc.get("loss_number", "weak") == "weak":
+            a_num = rng.uniform(0.0, 0.5, size=se.shape) * (rng.random(se.shape) < 0.7)
+        else:
+            a_num = 10.0 ** rng.uniform(-1.0, 2.0, size=se.shape) * (rng.random(se.shape) < 0.7)
+        r.branch("eps:%s,sigma:%s,loss_number:%s" % (sc["eps_tier"], sc["lossy"], sc.get("loss_number", "weak")))
         inv_eps_b = np.broadcast_to(np.asarray(arrays.inv_permittivities), np.broadcast_shapes(se.shape, ie.shape))
         sig = a_num * 2.0 / (c * eta0 * inv_eps_b)
         if sig.shape != se.shape:
